@@ -208,6 +208,14 @@ def run_impl(exe, cases, per_case_timeout=10.0, cwd=None, env=None, extra_args=(
                 line = q.get(timeout=per_case_timeout)
             except queue.Empty:
                 p.kill()
+                # the harness's own deadline (not the driver's): a loaded machine can stall a process for that long.
+                # The case is run again, alone, with a longer deadline; a call that hangs does so again.
+                again = _run_alone(exe, cases[i], 3 * per_case_timeout, cwd, env, extra_args)
+                if again not in ("timeout -", "crash -") and not again.startswith("timeout"):
+                    results.append(again)
+                    i += 1
+                    dead = True
+                    break
                 results.append("timeout -")
                 crashes.append((i, "timeout", ""))
                 i += 1
